@@ -302,6 +302,43 @@ theorem InvL_inputD {honest : String → Bool} {cl : String → U32 → Option S
       rw [← hgh] at this
       exact this.dlv i d now hi
 
+/-- **what reaches a session of an honest address**: one datagram from an honest address `a` (the gate
+opens it to the `i`-th datagram `d` of `a`'s client of conversation `c`) does to every object exactly
+one of: nothing / `closeFx` / feed `d` to the session of `a` whose conversation id is `c` / create the
+fresh session `(a, c)` and feed it `d` -/
+theorem inputD_genuine {cl : String → U32 → Option SessG} {l : Listener SessG}
+    (hw : WireOk) (hwf : WF l) (hc : InvC cl) (ciph : Cipher) (now : U32) (dead : Bool)
+    (data : Bytes) (a : String) (c : U32) (g : SessG) (i : Nat) (d : Bytes)
+    (hg : cl a c = some g) (hi : g.wire[i]? = some d) (hgd : cryptGate ciph data = .ok d)
+    (j : Nat) (o' : SessIn.Sess SessG) (hj : (inputD ciph now l dead data a).objs[j]? = some o') :
+    l.objs[j]? = some o' ∨
+    (∃ o, l.objs[j]? = some o ∧ o' = { o with st := sessStep o.st (.update now), closed := true }) ∨
+    (∃ o, l.objs[j]? = some o ∧ o.addr = a ∧ o.conv = c ∧ o' = { o with st := sessStep o.st (.input d now) }) ∨
+    (j = l.objs.length ∧
+      o' = { conv := c, addr := a, st := sessStep { s := Sess.new c } (.input d now), closed := false }) := by
+  rcases inputD_obj ciph now l dead data a j o' hj with h1 | ⟨o, ho, ho'⟩ | ⟨p, hd, hgate, hm, hp, hf⟩
+  · exact Or.inl h1
+  · exact Or.inr (Or.inl ⟨o, ho, ho'⟩)
+  · rw [hgd] at hgate; cases hgate
+    obtain ⟨hist, hgh⟩ := hc a c g hg
+    have hmem : d ∈ (sessRun { s := Sess.new c } hist).wire := by
+      rw [← hgh]; exact List.mem_of_getElem? hi
+    have hhd : hd.hasConv = true ∧ hd.conv = c := by
+      rcases hw c hist d hmem with h1 | ⟨sn, h1⟩
+      · omega
+      · rw [hp] at h1; cases h1; exact ⟨rfl, rfl⟩
+    rcases hf with ⟨o, ho, hl, hcv, ho'⟩ | ⟨o, ho, _, _, _, _, _, ho'⟩ | ⟨hjl, _, _, ho'⟩
+    · obtain ⟨o2, ho2, hoa, _⟩ := hwf a j hl
+      rw [ho] at ho2; cases ho2
+      have hco : o.conv = c := by
+        rcases hcv with h1 | h1
+        · rw [hhd.1] at h1; cases h1
+        · rw [← h1]; exact hhd.2
+      exact Or.inr (Or.inr (Or.inl ⟨o, ho, hoa, hco, ho'⟩))
+    · exact Or.inr (Or.inl ⟨o, ho, ho'⟩)
+    · rw [hhd.2] at ho'
+      exact Or.inr (Or.inr (Or.inr ⟨hjl, ho'⟩))
+
 /-! ### client-side steps -/
 
 theorem InvL_setClient_new {honest : String → Bool} {cl : String → U32 → Option SessG} {l : Listener SessG}
